@@ -5,6 +5,7 @@ import random
 from engine import shapes
 
 _CAT = {}
+FAILED = []     # (kind, L, I, history, error): histories on which the catalogue search saw the real code misbehave
 
 
 def cat(family, impl, kind, N, L, I):
@@ -13,6 +14,10 @@ def cat(family, impl, kind, N, L, I):
         cl = shapes.classes(family, impl)
         shapes.set_sizes(cl, L, I)
         c, st = shapes.catalogue(cl, kind, N)
+        for h, e in st.pop('failed'):
+            ent = (kind, L, I, h, e)
+            if ent not in FAILED:
+                FAILED.append(ent)
         _CAT[key] = (c, st)
     return _CAT[key]
 
@@ -37,6 +42,19 @@ def pick_shapes(tier, seed, L=2, I=2, family='OO', kind='BTree', quick_extra=10,
         out += [('all', s, src[s]) for s in sorted(src, key=repr) if s not in chosen]
     stats['shapes_used'] = len(out)
     return out, stats
+
+
+def failed_history_obligations(pid, impls=('c', 'py')):
+    """histories on which the catalogue search saw the real code misbehave ->
+    solver-run obligations (re-keyed history, full oracle); normally none."""
+    obs = []
+    for n, (kind, L, I, hist, err) in enumerate(FAILED[:16]):
+        N = max(k for _, k in hist) + 1
+        for impl in impls:
+            P = dict(family='OO', impl=impl, kind=kind, L=L, I=I, hist=hist, catalogue_error=err)
+            obs.append(dict(id='%s/%s/%s/history%d' % (pid, impl, kind, n), mod='h_step', fn='history', nk=N,
+                            args=[], params=P, timeout=60))
+    return obs
 
 
 def sid(tpl):
@@ -134,6 +152,7 @@ def step_obligations(pid, tier, seed, check, mutating_only=False):
             obs.append(dict(id='%s/%s/%s/from_empty_k%d' % (pid, impl, kind, k), mod='h_step', fn='from_empty', nk=0,
                             args=args, params=P, timeout=timeout * 2))
     bounds.update(node_sizes=sizes, from_empty_k=k, per_condition_timeout_s=timeout)
+    obs += failed_history_obligations(pid)
     return {'obligations': obs, 'bounds': bounds}
 
 
